@@ -235,8 +235,13 @@ func solveAll(obls []*Oblig, workdir string, timeoutS int, agree bool, par int) 
 	// loaded machine (other checks running beside this one) does not turn a dischargeable obligation into an alarm
 	var again []*Oblig
 	for _, o := range obls {
-		if o.Result == "unknown" && o.Err == "" && !o.retried {
+		if o.Result == "unknown" && o.Err == "" && !o.retried && !o.noRetry {
 			again = append(again, o)
+		}
+	}
+	if os.Getenv("GCV_DEBUG_RETRY") != "" {
+		for _, o := range again {
+			fmt.Fprintln(os.Stderr, "retry:", o.ID)
 		}
 	}
 	if len(again) == 0 || len(again) > 40 {
